@@ -546,6 +546,45 @@ def segSegOracle (a1 b1 a2 b2 : V2 Float) (out : List String) : String :=
        if r != "pass" then r else chk cb hi)
   | _ => "fail unparsable-output"
 
+/-- oracle for `clip_segment_segment_with_normal` (2-D): with `τ(p) = p·(-n.y, n.x)`: `None ⇔` the `τ`-ranges of the two segments
+are disjoint; otherwise `p1 ∈ seg1`, `p2 ∈ seg2`, `τ(p1) = τ(p2)` = lower end of the overlap for the first pair, upper end for the
+second; feature codes `0`/`2` name the first/second vertex of the segment. -/
+def segSegNormalOracle (a1 b1 a2 b2 n : V2 Float) (out : List String) : String :=
+  if !(finite2 a1 && finite2 b1 && finite2 a2 && finite2 b2 && finite2 n) then "skip nonfinite-input" else
+  let A1 := q2 a1; let B1 := q2 b1; let A2 := q2 a2; let B2 := q2 b2; let N := q2 n
+  let T : V2 Rat := ⟨-N.y, N.x⟩
+  let pr (p : V2 Rat) : Rat := p.dot T
+  let lo1 := min (pr A1) (pr B1); let hi1 := max (pr A1) (pr B1)
+  let lo2 := min (pr A2) (pr B2); let hi2 := max (pr A2) (pr B2)
+  let sc := 1 + max (max (rabs A1.x) (rabs A1.y)) (max (max (rabs B1.x) (rabs B1.y)) (max (max (rabs A2.x) (rabs A2.y)) (max (rabs B2.x) (rabs B2.y))))
+  let pt := tol * sc * (1 + rabs N.x + rabs N.y) * 10
+  let lo := max lo1 lo2; let hi := min hi1 hi2
+  match out with
+  | "panic" :: _ => "fail panic"
+  | ["none"] => if hi - lo > pt then "fail none-but-ranges-overlap" else "pass"
+  | "some" :: rest =>
+    (match run (do let x ← pcp; let y ← pcp; pend; pure (x, y)) rest with
+     | none => "fail unparsable-output"
+     | some (ca, cb) =>
+       if lo - hi > pt then "fail some-but-ranges-disjoint" else
+       if !([ca, cb].all fun c => finite2 c.p1 && finite2 c.p2) then "fail nonfinite-output" else
+       -- a segment whose `τ`-extent is within rounding of zero has no well-conditioned interpolation parameter
+       if (hi1 - lo1 ≤ pt && hi1 != lo1) || (hi2 - lo2 ≤ pt && hi2 != lo2) then "skip nearly-degenerate-range" else
+       let chk (c : CP) (target : Rat) : String :=
+         let P1 := q2 c.p1; let P2 := q2 c.p2
+         if !onSegment2 A1 B1 P1 sc then "fail p1-not-on-seg1" else
+         if !onSegment2 A2 B2 P2 sc then "fail p2-not-on-seg2" else
+         if rabs (pr P1 - pr P2) > pt then "fail tangent-coordinates-differ" else
+         if rabs (pr P1 - target) > pt then "fail not-at-overlap-end" else
+         if c.f1 == 0 && !eqV2 P1 A1 then "fail feature-0-but-not-first-vertex" else
+         if c.f1 == 2 && !eqV2 P1 B1 then "fail feature-2-but-not-second-vertex" else
+         if c.f2 == 0 && !eqV2 P2 A2 then "fail feature-0-but-not-first-vertex" else
+         if c.f2 == 2 && !eqV2 P2 B2 then "fail feature-2-but-not-second-vertex" else
+         if c.f1 > 2 || c.f2 > 2 then "fail bad-feature" else "pass"
+       let r := chk ca lo
+       if r != "pass" then r else chk cb hi)
+  | _ => "fail unparsable-output"
+
 /-! ### TriMesh split / plane section (oracle-only: `relations.json` kind none) -/
 abbrev Tri := Nat × Nat × Nat
 structure MeshF where
@@ -1101,6 +1140,13 @@ def handler (fn : String) : Option Handler :=
                                   | none => "none" | some (ca, cb) => s!"some {fcp ca} {fcp cb}")) a
       oracle := fun a o => match run (do let a1 ← pv2; let b1 ← pv2; let a2 ← pv2; let b2 ← pv2; pure (a1, b1, a2, b2)) a with
         | some (a1, b1, a2, b2) => segSegOracle a1 b1 a2 b2 o
+        | none => "skip bad-args" }
+  | "clip_seg_seg_n" => some {
+      model := fun a => run (do let a1 ← pv2; let b1 ← pv2; let a2 ← pv2; let b2 ← pv2; let n ← pv2
+                                pure (match clipSegmentSegmentWithNormal a1 b1 a2 b2 n with
+                                  | none => "none" | some (ca, cb) => s!"some {fcp ca} {fcp cb}")) a
+      oracle := fun a o => match run (do let a1 ← pv2; let b1 ← pv2; let a2 ← pv2; let b2 ← pv2; let n ← pv2; pure (a1, b1, a2, b2, n)) a with
+        | some (a1, b1, a2, b2, n) => segSegNormalOracle a1 b1 a2 b2 n o
         | none => "skip bad-args" }
   | "tm_split" => some {
       model := fun _ => some "oracle-only"
